@@ -268,10 +268,12 @@ func refCycles(rg *ref.WG) (pureComputedCycle bool, acyclic bool) {
 }
 
 type c17Case struct {
-	Tag     string     `json:"tag,omitempty"`
-	Model   *ref.Model `json:"model"`
-	Choices []int      `json:"choices,omitempty"`
+	Tag     string      `json:"tag,omitempty"`
+	Model   *ref.Model  `json:"model"`
+	Choices []int       `json:"choices,omitempty"`
 	Pairs   [][2]string `json:"pairs,omitempty"`
+	// Sparse: the model was built from its sparse-metadata form
+	Sparse bool `json:"sparse_metadata,omitempty"`
 }
 
 func c17Class(site string) string {
@@ -408,6 +410,17 @@ func c17One(ctx *core.Ctx, i int, tm gen.Tagged) {
 	cs := &c17Case{Tag: tm.Tag, Model: tm.M, Pairs: allPairs}
 	if !c17Judge(ctx, cs, rg, reach, o, &firstDot) {
 		return
+	}
+	// the same model with sparse metadata (no entry for relations without direct assignment): the same graph
+	if sp, changed := sparseMetadata(pm); changed {
+		ctx.Trans(1)
+		var so *c17Obs
+		rt.Run(nil, nil, func() { so = c17Body(sp, allPairs) })
+		scs := &c17Case{Tag: tm.Tag + " (metadata only for relations with a direct assignment)", Model: tm.M, Pairs: allPairs, Sparse: true}
+		if !c17Judge(ctx, scs, rg, reach, so, &firstDot) {
+			return
+		}
+		ctx.Flag("c17:sparse-metadata")
 	}
 	// label lookup: on the graph, its reversal and the double reversal ("reversing flips edges and direction and nothing else")
 	for gi, gr := range []*graph.AuthorizationModelGraph{o.g, o.rev, o.revrev} {
@@ -550,6 +563,9 @@ func init() {
 			first := ""
 			if !c17Judge(ctx, &c17Case{Tag: cs.Tag, Model: cs.Model, Pairs: cs.Pairs}, rg, refReach(rg), o0, &first) {
 				return
+			}
+			if cs.Sparse {
+				pm, _ = sparseMetadata(pm)
 			}
 			rt.Run(cs.Choices, nil, func() { o = c17Body(pm, cs.Pairs) })
 			c17Judge(ctx, &cs, rg, refReach(rg), o, &first)
